@@ -6,7 +6,7 @@ wt = sys.argv[2]
 p = [json.loads(l) for l in open('/verif/properties.jsonl') if json.loads(l)['id'] == pid][0]
 print(f"""You are helping to evaluate a test harness by seeding realistic bugs into a Python library. Work ONLY inside the git worktree {wt} (a checkout of the parglare parser-generator library). Do NOT read, list or modify anything under /verif or /repo.
 
-How to run things: `cd {wt} && find . -name '*.pgc' -delete -o -name '*.pgec' -delete; PYTHONPATH={wt} /venv/bin/python -m pytest -q -p no:cacheprovider tests/func -q --deselect tests/func/pglr/test_pglr.py` runs the existing suite against the worktree's sources (delete the cached .pgc/.pgec table files before every run, otherwise stale cached tables hide your change; the two pglr tests fail in this sandbox regardless and are deselected). Scripts: `PYTHONPATH={wt} /venv/bin/python script.py`.
+How to run things: `cd {wt} && git ls-files -o -i --exclude-standard | grep -E '\\.pge?c$' | xargs -r rm -f; PYTHONPATH={wt} /venv/bin/python -m pytest -q -p no:cacheprovider tests/func --deselect tests/func/pglr/test_pglr.py` runs the existing suite against the worktree's sources (that first command deletes the untracked cached .pgc/.pgec table files - do it before every run, otherwise stale cached tables hide your change; the two pglr tests fail in this sandbox regardless and are deselected). Scripts: `PYTHONPATH={wt} /venv/bin/python script.py`.
 
 The property under study ({pid} - {p['title']}):
 {p['statement']}
